@@ -211,6 +211,20 @@ impl Prop for C03 {
                 }
             }
         }
+        // a prefixed unit that cancels half-way through an expression and comes back with its
+        // power (`km/km^2` is km^-1, not m^-1), in both directions
+        for p in ["", "k", "m", "c", "M", "n"] {
+            for u in ["m", "s", "g", "N", "W", "l"] {
+                if p.is_empty() && u != "g" {
+                    continue;
+                }
+                let w = format!("{p}{u}");
+                for (a, b) in [(format!("{w}/{w}^2"), format!("{u}^-1")), (format!("{w}^-1*{w}^2"), u.to_string()), (format!("{w}/{w}^3"), format!("{u}^-2")), (format!("{w}^2/{w}^2*{w}"), format!("{u}^-1")), (format!("J*{w}/{w}^2"), format!("J/{u}"))] {
+                    comp.push((a.clone(), b.clone()));
+                    comp.push((b, a));
+                }
+            }
+        }
         comp.sort();
         comp.dedup();
         for (a, b) in comp {
